@@ -13,8 +13,9 @@ EXPLANATION = ('(R16.1) on the state graph of every lookup/write/touch entry poi
                'validator is reachable without a whole-name path-separator scan answering "none"; (R16.4) every mutating '
                'primitive in those entry points is applied to a path of an allowed provenance class (source value, '
                'directory-accessor + validated key, directory + listed name, temp dir + listed name, directory/temp dir '
-               'themselves, parent of directory + key). Names special to a particular OS beyond separators are not decided.')
-FLOORS = {'R16.1': 10, 'R16.2': 5, 'R16.3': 1, 'R16.4': 20}
+               'themselves, parent of directory + key); (R16.5) the listed names maintenance may unlink or re-stamp passed a '
+               'dot-prefix rejection on the raw name bytes (= R17.2). Names special to a particular OS beyond separators are not decided.')
+FLOORS = {'R16.1': 10, 'R16.2': 5, 'R16.3': 1, 'R16.4': 20, 'R16.5': 1}
 
 MUT_OR_LIST = prims.MUTATING | {'list_dir'}
 
@@ -142,7 +143,7 @@ def excludes_separator_edges(q):
 def r16_2_3(ctx):
     out = []
     v = ctx.role('validator')
-    q = ctx.explore(v, opaque='pure')
+    q = ctx.explore(v, opaque='none')   # the validator may delegate to pure local helpers: look inside them
     ok_terms = q.terminals(lambda ev: ev['k'] == 'ret' and ev.get('variant') == 'Ok')
     err_terms = q.terminals(lambda ev: ev['k'] == 'ret' and ev.get('variant') == 'Err')
     if not ok_terms:
@@ -252,6 +253,15 @@ def r16_4(ctx):
     return out
 
 
+def r16_5(ctx):
+    """nothing in the dot-prefixed namespace is deleted or re-stamped by maintenance: the listed names that become
+    eviction candidates (the only names maintenance unlinks or re-stamps, R16.4/R17.4) passed a dot-prefix rejection
+    that works on the raw name bytes (shared with R17.2)."""
+    from rules import c17
+    return [inst('R16.5', i['key'].split('|', 1)[1], i['ok'], i['detail'], path=i.get('path') or [])
+            for i in c17.r17_2(ctx) if 'dot' in i['key'] or 'push' in i['key']]
+
+
 def run(ctx):
     from runner import collect
-    return collect(ctx, r16_1, r16_2_3, r16_4)
+    return collect(ctx, r16_1, r16_2_3, r16_4, r16_5)
